@@ -104,6 +104,31 @@ secret of the secrets it names -/
 def specCtxAt (ca : Cache κ) (c : SCtx κ) : Option (κ × Nat) :=
   (pemSecret ca (c.ref.val, c.ref.cert)).map (fun s => (c.cfg, s))
 
+/-! ### the client-authentication mode of every kind of context -/
+
+/-- where a listener context's certificate and trust anchors come from -/
+inductive CtxKind where
+  | staticWithCA            -- cert_chain / private_key / ca_cert inline or files
+  | staticWithoutCA         -- no ca_cert: the host's root store
+  | sdsWithValidation       -- sds certificate secret + sds validation secret
+  | sdsWithoutValidation    -- sds certificate secret only: the host's root store
+  deriving DecidableEq, Repr
+
+def CtxKind.all : List CtxKind := [.staticWithCA, .staticWithoutCA, .sdsWithValidation, .sdsWithoutValidation]
+
+/-- the tls.ClientAuthType of a context of kind `k` with flags require_client_cert / verify_client (`none` while the
+context is not built: sds secret pending). Every kind is built by newTLSContext → SetServerConfig →
+hooks.GetClientAuth(cfg) (`Gen.TlsShare.clientAuthFromHookForEveryContext`), and GetClientAuth reads nothing but the two
+flags (`Gen.TlsShare.getClientAuthReads`; the regenerated `getClientAuth` has no other input): the kind cannot matter. -/
+def ctxClientAuth (_k : CtxKind) (ready : Bool) (req ver : Bool) : Option Int :=
+  if ready then some (MosnVerif.Gen.TlsPolicy.getClientAuth req ver) else none
+
+/-- the trust anchor a peer certificate is judged against: the configured CA, or the host's root store -/
+def CtxKind.hostStore : CtxKind → Bool
+  | .staticWithoutCA => true
+  | .sdsWithoutValidation => true
+  | _ => false
+
 /-! ### what a listener's manager selects among -/
 
 /-- the configuration of an sds tls context of a listener (the fields outside the secret) -/
